@@ -136,6 +136,8 @@ def run_prop(chk, replay, prop):
             style = {"ishift": True}
         if prop in ("C04", "C20") and one_unit_length_error(sc) and i % 3 != 0:
             style = {"ragged": True}          # a length error of less than one value (taste_common.concretise)
+        if prop in ("C04", "C20") and not style and any(a.get("k") == "DeleteFile" for a in (sc.get("applied") or [])) and i % 2 == 0:
+            style = {"ghost": True}           # the deleted file keeps a directory entry (dangling link / directory of that name)
         if i % 9 == 4 and not style:
             style = {"crowd": True}           # hundreds of further boxes in front of the modelled ones, in the same files
         cfgseed = chk.rng.randrange(1 << 30)
